@@ -16,37 +16,57 @@ Proof.
   destruct (existsb (String.eqb k) spec_ops) eqn:Ek.
   - apply existsb_exists in Ek. destruct Ek as [k' [Hin Hk]]. apply String.eqb_eq in Hk. subst k'.
     unfold spec_ops in Hin. simpl in Hin.
-    repeat (destruct Hin as [<-|Hin];
-            [first [ apply case_literal
-                   | apply case_abs; exact IHa
-                   | apply case_round; [simpl; tauto|exact IHa]
-                   | apply case_divmod; [simpl; tauto|exact IHa]
-                   | apply case_addmul; [simpl; tauto|exact IHa]
-                   | apply case_subtract; exact IHa
-                   | apply case_cmp; [simpl; tauto|exact IHa]
-                   | apply case_and; exact IHa
-                   | apply case_or; exact IHa
-                   | apply case_not; exact IHa
-                   | apply case_cond; exact IHa
-                   | apply case_ifnull; exact IHa
-                   | apply case_switch; exact IHa
-                   | apply case_let; exact IHa
-                   | apply case_map; exact IHa
-                   | apply case_filter; exact IHa
-                   | apply case_concat; exact IHa
-                   | apply case_case; [simpl; tauto|exact IHa]
-                   | apply case_strcasecmp; exact IHa
-                   | apply case_substr; exact IHa
-                   | apply case_size; exact IHa
-                   | apply case_arrayElemAt; exact IHa
-                   | apply case_concatArrays; exact IHa
-                   | apply case_slice; exact IHa
-                   | apply case_is; [simpl; tauto|exact IHa]
-                   | apply case_in; exact IHa
-                   | apply case_setEquals; exact IHa
-                   | apply case_fold; [simpl; tauto|exact IHa]
-                   | apply case_firstlast; [simpl; tauto|exact IHa]
-                   | apply case_datepart; [simpl; tauto|exact IHa] ]|]).
+    (* the operators in the order of [spec_ops]; every [apply] is the one that succeeds (a failing
+       [apply] of a lemma about another operator unfolds [P] and evaluates both sides) *)
+    destruct Hin as [<-|Hin]; [apply case_literal|].   (* $literal *)
+    destruct Hin as [<-|Hin]; [apply case_abs; exact IHa|].   (* $abs *)
+    destruct Hin as [<-|Hin]; [apply case_round; [simpl; tauto|exact IHa]|].   (* $ceil *)
+    destruct Hin as [<-|Hin]; [apply case_round; [simpl; tauto|exact IHa]|].   (* $floor *)
+    destruct Hin as [<-|Hin]; [apply case_round; [simpl; tauto|exact IHa]|].   (* $trunc *)
+    destruct Hin as [<-|Hin]; [apply case_divmod; [simpl; tauto|exact IHa]|].   (* $divide *)
+    destruct Hin as [<-|Hin]; [apply case_divmod; [simpl; tauto|exact IHa]|].   (* $mod *)
+    destruct Hin as [<-|Hin]; [apply case_addmul; [simpl; tauto|exact IHa]|].   (* $add *)
+    destruct Hin as [<-|Hin]; [apply case_addmul; [simpl; tauto|exact IHa]|].   (* $multiply *)
+    destruct Hin as [<-|Hin]; [apply case_subtract; exact IHa|].   (* $subtract *)
+    destruct Hin as [<-|Hin]; [apply case_cmp; [simpl; tauto|exact IHa]|].   (* $eq *)
+    destruct Hin as [<-|Hin]; [apply case_cmp; [simpl; tauto|exact IHa]|].   (* $ne *)
+    destruct Hin as [<-|Hin]; [apply case_cmp; [simpl; tauto|exact IHa]|].   (* $gt *)
+    destruct Hin as [<-|Hin]; [apply case_cmp; [simpl; tauto|exact IHa]|].   (* $gte *)
+    destruct Hin as [<-|Hin]; [apply case_cmp; [simpl; tauto|exact IHa]|].   (* $lt *)
+    destruct Hin as [<-|Hin]; [apply case_cmp; [simpl; tauto|exact IHa]|].   (* $lte *)
+    destruct Hin as [<-|Hin]; [apply case_and; exact IHa|].   (* $and *)
+    destruct Hin as [<-|Hin]; [apply case_or; exact IHa|].   (* $or *)
+    destruct Hin as [<-|Hin]; [apply case_not; exact IHa|].   (* $not *)
+    destruct Hin as [<-|Hin]; [apply case_cond; exact IHa|].   (* $cond *)
+    destruct Hin as [<-|Hin]; [apply case_ifnull; exact IHa|].   (* $ifNull *)
+    destruct Hin as [<-|Hin]; [apply case_switch; exact IHa|].   (* $switch *)
+    destruct Hin as [<-|Hin]; [apply case_let; exact IHa|].   (* $let *)
+    destruct Hin as [<-|Hin]; [apply case_map; exact IHa|].   (* $map *)
+    destruct Hin as [<-|Hin]; [apply case_filter; exact IHa|].   (* $filter *)
+    destruct Hin as [<-|Hin]; [apply case_concat; exact IHa|].   (* $concat *)
+    destruct Hin as [<-|Hin]; [apply case_case; [simpl; tauto|exact IHa]|].   (* $toLower *)
+    destruct Hin as [<-|Hin]; [apply case_case; [simpl; tauto|exact IHa]|].   (* $toUpper *)
+    destruct Hin as [<-|Hin]; [apply case_strcasecmp; exact IHa|].   (* $strcasecmp *)
+    destruct Hin as [<-|Hin]; [apply case_substr; exact IHa|].   (* $substr *)
+    destruct Hin as [<-|Hin]; [apply case_size; exact IHa|].   (* $size *)
+    destruct Hin as [<-|Hin]; [apply case_arrayElemAt; exact IHa|].   (* $arrayElemAt *)
+    destruct Hin as [<-|Hin]; [apply case_concatArrays; exact IHa|].   (* $concatArrays *)
+    destruct Hin as [<-|Hin]; [apply case_slice; exact IHa|].   (* $slice *)
+    destruct Hin as [<-|Hin]; [apply case_is; [simpl; tauto|exact IHa]|].   (* $isArray *)
+    destruct Hin as [<-|Hin]; [apply case_is; [simpl; tauto|exact IHa]|].   (* $isNumber *)
+    destruct Hin as [<-|Hin]; [apply case_in; exact IHa|].   (* $in *)
+    destruct Hin as [<-|Hin]; [apply case_setEquals; exact IHa|].   (* $setEquals *)
+    destruct Hin as [<-|Hin]; [apply case_fold; [simpl; tauto|exact IHa]|].   (* $sum *)
+    destruct Hin as [<-|Hin]; [apply case_fold; [simpl; tauto|exact IHa]|].   (* $avg *)
+    destruct Hin as [<-|Hin]; [apply case_fold; [simpl; tauto|exact IHa]|].   (* $min *)
+    destruct Hin as [<-|Hin]; [apply case_fold; [simpl; tauto|exact IHa]|].   (* $max *)
+    destruct Hin as [<-|Hin]; [apply case_firstlast; [simpl; tauto|exact IHa]|].   (* $first *)
+    destruct Hin as [<-|Hin]; [apply case_firstlast; [simpl; tauto|exact IHa]|].   (* $last *)
+    destruct Hin as [<-|Hin]; [apply case_datepart; [simpl; tauto|exact IHa]|].   (* $hour *)
+    destruct Hin as [<-|Hin]; [apply case_datepart; [simpl; tauto|exact IHa]|].   (* $minute *)
+    destruct Hin as [<-|Hin]; [apply case_datepart; [simpl; tauto|exact IHa]|].   (* $second *)
+    destruct Hin as [<-|Hin]; [apply case_datepart; [simpl; tauto|exact IHa]|].   (* $millisecond *)
+    destruct Hin as [<-|Hin]; [apply case_datepart; [simpl; tauto|exact IHa]|].   (* $dayOfWeek *)
     destruct Hin.
   - intros vars _. rewrite (seval_unknown _ _ _ _ Hd Ek). done_R.
 Qed.
